@@ -79,6 +79,30 @@ def _norm_uncached(expr: ast.AST) -> str:
 _entry_plans: Dict[int, list] = {}
 
 
+class _Alias:
+    """Hashable wrapper of the test expression a local flag was assigned from."""
+    __slots__ = ('expr',)
+
+    def __init__(self, expr: ast.AST) -> None:
+        self.expr = expr
+
+    def __hash__(self) -> int:
+        return id(self.expr)
+
+    def __eq__(self, other) -> bool:
+        return isinstance(other, _Alias) and other.expr is self.expr
+
+
+def _is_test_like(e: ast.AST) -> bool:
+    if isinstance(e, (ast.Compare, ast.BoolOp)):
+        return True
+    if isinstance(e, ast.UnaryOp) and isinstance(e.op, ast.Not):
+        return True
+    if isinstance(e, ast.Call) and isinstance(e.func, ast.Name) and e.func.id in ('isinstance', 'bool', 'callable', 'hasattr'):
+        return True
+    return False
+
+
 class FactOps:
     def __init__(self, program: Program) -> None:
         self.p = program
@@ -106,8 +130,17 @@ class FactOps:
                 continue
             if k[0] == 't' and name in k[3]:
                 continue
+            if k[0] == 'a' and (k[2] == name or name in k[3]):
+                continue
             out.append((k, v))
         return frozenset(out)
+
+    @staticmethod
+    def alias_of(facts: Facts, iid: int, name: str):
+        for k, v in facts:
+            if k[0] == 'a' and k[1] == iid and k[2] == name:
+                return v
+        return None
 
     # ---- evaluation
     def eval3(self, expr: Optional[ast.AST], iid: int, facts: Facts) -> Optional[bool]:
@@ -135,6 +168,11 @@ class FactOps:
             c = self.get(facts, ('v', iid, expr.id))
             if c is not None:
                 return bool(c[0])
+            al = self.alias_of(facts, iid, expr.id)
+            if al is not None:
+                v = self.eval3(al.expr, iid, facts)
+                if v is not None:
+                    return v
         if isinstance(expr, ast.Compare) and len(expr.ops) == 1:
             lc = self.const_of(expr.left, iid, facts)
             rc = self.const_of(expr.comparators[0], iid, facts)
@@ -172,6 +210,10 @@ class FactOps:
                 for v in expr.values:
                     facts = self.assume(v, False, iid, facts)
                 return facts
+        if isinstance(expr, ast.Name):
+            al = self.alias_of(facts, iid, expr.id)
+            if al is not None:
+                facts = self.assume(al.expr, value, iid, facts)
         if is_pure(expr):
             return self.put(facts, ('t', iid, _norm(expr), free_names(expr)), value)
         return facts
@@ -186,6 +228,14 @@ class FactOps:
             if not ev.info.get('aug') and isinstance(value, ast.Constant) and isinstance(ev.node, (ast.Assign, ast.AnnAssign)) \
                     and self._single_name_target(ev.node, name):
                 facts = self.put(facts, ('v', iid, name), (value.value,))
+            elif not ev.info.get('aug') and value is not None and isinstance(ev.node, (ast.Assign, ast.AnnAssign)) \
+                    and self._single_name_target(ev.node, name) and _is_test_like(value) and is_pure(value) \
+                    and name not in free_names(value):
+                # `flag = <pure test>`: the flag stands for the test while its operands are not reassigned
+                facts = self.put(facts, ('a', iid, name, free_names(value)), _Alias(value))
+                known = self.eval3(value, iid, facts)
+                if known is not None:
+                    facts = self.put(facts, ('t', iid, name, frozenset([name])), known)
             return facts
         if ev.kind == 'loop':
             for n in free_names(ev.info.get('target')) if ev.info.get('target') is not None else ():
